@@ -516,8 +516,14 @@ func r79Bits(c *Ctx, p *Prog, cp string, e tableEntry) {
 	k, isK := constInt(cmp.Y)
 	switch e.key {
 	case "any_bits":
-		if isK && k == 0 && (cmp.Op == token.GTR || cmp.Op == token.NEQ) {
-			c.ok(key, p.instrPos(cmp), "cell & mask > 0")
+		unsigned := false
+		if bt, ok := and.Type().Underlying().(*types.Basic); ok && bt.Info()&types.IsUnsigned != 0 {
+			unsigned = true
+		}
+		if isK && k == 0 && cmp.Op == token.GTR && !unsigned {
+			c.bad(key, p.instrPos(cmp), "any_bits stores `cell & mask > 0` on a signed integer: when the shared bits include the sign bit the conjunction is negative and the row is dropped although cell and mask have bits in common (-1 any_bits -1 is false); `!= 0` is the definition")
+		} else if isK && k == 0 && (cmp.Op == token.GTR || cmp.Op == token.NEQ) {
+			c.ok(key, p.instrPos(cmp), "cell & mask != 0")
 		} else {
 			c.bad(key, p.instrPos(cmp), fmt.Sprintf("any_bits stores `cell & mask %s %s`; a cell sharing only the lowest bit with the mask (cell & mask = 1) must be selected", cmp.Op, describe(cmp.Y)))
 		}
